@@ -727,6 +727,7 @@ class Parser(ExprParser):
             name = self.mustbe("ID").value
             if self.have("LPAREN"):
                 parens = 1
+                brackets = 0
                 parts = []
                 # collect tokens until found balanced paren
                 while True:
@@ -734,11 +735,18 @@ class Parser(ExprParser):
                         parens += 1
                     elif self.token.typ == "RPAREN":
                         parens -= 1
+                    elif self.token.typ in ["LBRACKET", "LCURLY"]:
+                        brackets += 1
+                    elif self.token.typ in ["RBRACKET", "RCURLY"]:
+                        brackets -= 1
                     elif self.token.typ == "EOF":
                         raise RuntimeError(
                             "Unbalanced parens in attribute {}".format(name)
                         )
                     if parens == 0:
+                        if brackets != 0:
+                            self.error_msg(
+                                "Unbalanced brackets in attribute {}".format(name))
                         self.next()
                         break
                     parts.append(self.token.value)
